@@ -215,7 +215,7 @@ class SysExit(Exception):
 class K14b(Harness):
     name = "K14b"
     prop = "C14"
-    props = ("C14", "C13", "C15", "C19")
+    props = ("C14", "C13", "C15", "C08", "C19")
     title = "process exit status is 0 iff no file has an error-severity violation and no file failed to parse/configure; the report after --fix is the gated report; results are independent of jobs and order"
     functions = ("vsg.__main__", "vsg.apply_rules", "vsg.rule_list", "vsg.rule")
     stubs = ("argument parser, config.New, vhdlFile construction and rule loading replaced: per file a symbolic parse error / config error flag and 2 StubRules",
@@ -385,6 +385,8 @@ class K14b(Harness):
                 earlier = Or([And(fl, f_of(q.phase < r.phase)) for fl, q in zip(fails, rules)])
                 reported = And(r.f_has(), Or(f_of(cla.all_phases), Not(earlier)))
                 clauses.append(("C13:report_is_gated_%s" % r.unique_id, Iff(len(r.violations) == 1, reported)))
+                # what is reported at the end of a --fix run is what a fresh check would report: each violation once
+                clauses.append(("C08:reported_once_%s" % r.unique_id, Eq(len(r.violations), core.If(reported, 1, 0))))
         clauses.append(("C14:exit_status", Iff(bool(code), any_bad)))
         # JSON: one entry per processed file, in command-line order
         doc = _json.loads(written.get("out.json", "{}") or "{}") if all(isinstance(v, str) for v in written.values()) else None
